@@ -312,9 +312,15 @@ def r14_4(ctx: Ctx):
         f = ctx.prog.own_method("DemeTree", meth)
         calls = [c for c in body_walk(f.node) if isinstance(c, ast.Call) and norm(c.func) == "init_from_config"]
         for c in calls:
-            v = next((k.value for k in c.keywords if k.arg == "random_seed"), None)
-            ok = v is not None and norm(v) == f"{f.self_name()}._random_seed"
-            obs.append(ctx.ob("R14.4", f, c, status=OK if ok else VIOLATION, detail="random_seed forwarded" if ok else f"init_from_config is called with random_seed={norm(v) if v is not None else '<missing>'}: demes built here seed their generators differently (or not at all)", construct=f"{meth}:random_seed"))
+            from ..core import canon, effective_keywords
+
+            fdefs = local_defs(f)
+            v = effective_keywords(c, fdefs).get("random_seed")
+            opaque = any(k.arg is None for k in c.keywords) and v is None
+            vt = canon(v, fdefs) if v is not None else None
+            ok = vt == f"{f.self_name()}._random_seed"
+            definite = v is None or isinstance(v, ast.Constant) or (vt is not None and "random_seed" not in vt and "seed" not in vt)
+            obs.append(ctx.ob("R14.4", f, c, status=OK if ok else INCONCLUSIVE if (opaque or not definite) else VIOLATION, detail="random_seed forwarded" if ok else f"init_from_config is called with random_seed={norm(v) if v is not None else '<missing>'}: demes built here seed their generators differently (or not at all)", construct=f"{meth}:random_seed"))
     g = ctx.prog.func("pyhms.demes.initialize", "init_from_config")
     dia = [c for c in body_walk(g.node) if isinstance(c, ast.Call) and norm(c.func) == "DemeInitArgs"]
     ok = len(dia) == 1 and any(k.arg == "random_seed" and norm(k.value) == "random_seed" for k in dia[0].keywords)
